@@ -221,6 +221,11 @@ impl StreamingLoop {
             let mut first_buf_len = None;
             let mut last_buf_len = None;
             let mut payload_len = 0;
+            // A payload transfer that comes after a short one doesn't continue the payload data:
+            // there is a hole in `payload_buf` between them. Only the bytes that are contiguous
+            // from the start of the buffer are counted as received payload.
+            let mut payload_transfer_sizes = self.params.payload_transfer_sizes();
+            let mut is_contiguous = true;
 
             while !async_pool.is_empty() {
                 let len = match async_pool.poll(self.params.timeout) {
@@ -235,14 +240,15 @@ impl StreamingLoop {
 
                 if first_buf_len.is_none() {
                     first_buf_len = Some(len);
-                } else {
-                    payload_len += len;
+                } else if let Some(transfer_size) = payload_transfer_sizes.next() {
+                    if is_contiguous {
+                        payload_len += len;
+                    }
+                    is_contiguous &= len == transfer_size;
                 }
 
                 last_buf_len = Some(len);
             }
-
-            let payload_len = payload_len - last_buf_len.unwrap();
 
             // We received the data from the bulk transfers, try to parse stuff now.
             // Only the bytes received in this iteration are parsed: the rest of the buffers may
@@ -476,6 +482,14 @@ impl StreamParams {
 }
 
 impl StreamParams {
+    /// Sizes of the payload transfers of a frame in the order they are submitted.
+    fn payload_transfer_sizes(&self) -> impl Iterator<Item = usize> {
+        std::iter::repeat(self.payload_size)
+            .take(self.payload_count)
+            .chain(Some(self.payload_final1_size).filter(|size| *size != 0))
+            .chain(Some(self.payload_final2_size).filter(|size| *size != 0))
+    }
+
     /// Construct `StreamParams`.
     #[must_use]
     pub fn new(
